@@ -289,7 +289,7 @@ def _mkspec(rng, kind):
     if kind == 'icartt':
         return {'nvars': rng.randrange(1, 4), 'nrec': rng.randrange(1, 6),
                 'holes': [[0, 0]] if rng.random() < 0.5 else [],
-                'dupname': rng.random() < 0.3}
+                'dupname': rng.random() < 0.3, 'dashname': rng.random() < 0.4}
     if kind in ('nc3', 'nc4'):
         return files.gen_spec(rng)
     if kind == 'ioapi_nc':
@@ -410,7 +410,9 @@ def gen_op(rng, st):
             # valid reader keywords (a little-endian open, grid hints, projection)
             op['kw'] = rng.choice([{'endian': 'little'}, {'endian': 'big'},
                                    {'rows': 2, 'cols': 3}, {'mode': 'r'},
-                                   {'P_ALP': 30.0, 'GDTYP': 2}, {'encoding': 'latin1'}])
+                                   {'P_ALP': 30.0, 'GDTYP': 2}, {'encoding': 'latin1'},
+                                   {'keysubs': {'/': '_', '-': '_'}},
+                                   {'keysubs': {'/': '_', '-': '_'}}])
     elif name == 'hrewrite':
         fid = rng.choice(fids)
         kind = rng.choice([k for k in c['kinds'] if k != st.files[fid]['kind']] or c['kinds'])
